@@ -54,10 +54,13 @@ def run_harness(ck, prop, hp, n, seed, tier, rundir, replay=None, extra_args=())
     return rc, o, cases
 
 
+REPLAY_TAG = None
+
+
 def write_replay(ck, prop, seed, k, payload):
     d = os.path.join(ck.ROOT, "replays")
     os.makedirs(d, exist_ok=True)
-    p = os.path.join(d, "%s-%d-%d.json" % (prop, seed, k))
+    p = os.path.join(d, "%s-%s-%d.json" % (prop, REPLAY_TAG or seed, k))
     with open(p, "w") as f:
         json.dump(payload, f, indent=1, default=str)
     return p
@@ -65,6 +68,10 @@ def write_replay(ck, prop, seed, k, payload):
 
 def run_property(a, ck):
     t0 = time.time()
+    global REPLAY_TAG
+    if a.replay:
+        a.replay = os.path.abspath(a.replay)
+        REPLAY_TAG = "replayed"
     prop = a.prop
     P = PROPS[prop]
     tier = a.tier
